@@ -234,6 +234,13 @@ def run (p : Path) (ops : List Opd) (fail : Mask) : Option (Shape × Mask) :=
       (ctor m a.shape).map fun m' => (a.shape, m')
   | _, _ => none
 
+/-- `Matrix3.__mul__` (matrix3.py:342-364): "Matrix3 times Scalar returns the same Scalar" — when the
+    right operand has item rank 0 it is returned ITSELF (the matrix's mask and leading shape play no
+    part); everything else goes to `Qube.__mul__` (→ `Qube.dot` → `or_` + constructor). -/
+def matrix3Mul (argIsScalar : Bool) (r x : Opd) : Option (Shape × Mask) :=
+  if argIsScalar then some (x.shape, x.mask)
+  else run (.ctorOr false) [r, x] (.all false)
+
 /-- the shape on which the code computes the failure set of a path, and the result shape -/
 def Path.shapes (p : Path) (ops : List Opd) : Option (Shape × Shape) :=
   match p, ops with
@@ -297,6 +304,14 @@ def MExpr.spec : MExpr → Index → Bool
   | .un p f e, i => e.spec i || p.failAt f i
   | .bin p f e1 e2, i =>
     e1.spec (bidx (e1.shape.getD []) i) || e2.spec (bidx (e2.shape.getD []) i) || p.failAt f i
+
+/-- the flattened specification: an element is masked iff SOME LEAF that broadcasts onto it is
+    masked there or SOME NODE failed there — every leaf mask and every failure set looked up
+    directly from the result index (`atB` = `np.broadcast_to(·, result_shape)[i]`) -/
+def MExpr.flat : MExpr → Index → Bool
+  | .leaf o, i => o.mask.atB i
+  | .un p f e, i => e.flat i || p.failAt f i
+  | .bin p f e1 e2, i => e1.flat i || e2.flat i || p.failAt f i
 
 /-- leaves carry masks of their own shape; failure sets have the shape the code computes them
     on; `is` shortcuts only between identical masks -/
